@@ -29,7 +29,7 @@ func VerifC08_w3_dyn() {
 	states := []string{"open", "pending"}
 	want := &svc.Doc{ID: nondetInt("id"), Code: "c", State: states[nondetChoice("state", 2)]}
 	if nondetBool("owner-set") {
-		want.Owner = &svc.Owner{ID: nondetInt("owner-id"), Name: nondetStringUpTo("owner-name", 1)}
+		want.Owner = &svc.Owner{ID: nondetInt("owner-id"), Name: nondetStringUpTo("owner-name", deep(1))}
 	}
 	view := "default"
 	if nondetBool("tiny") {
